@@ -11,6 +11,10 @@ for m in rows:
     s = m['summary'].replace('|', '/')
     if len(s) > 110: s = s[:107] + '...'
     det = ' '.join(m['detected_by_quick_checks']) or '**none**'
+    if m.get('detected_by_thorough_checks'):
+        det += ' (thorough: ' + ' '.join(m['detected_by_thorough_checks']) + ')'
+    if not m['detected_by_quick_checks'] and m.get('note', '').startswith('NOT a violation'):
+        det = 'not a violation of the property (see meta.json)'
     print(f"| {m['id']} | {m['breaks_property']} | {s} | {det} |")
 tot = len(rows); hit = sum(1 for m in rows if m['detected']); own = sum(1 for m in rows if m['breaks_property'] in m['detected_by_quick_checks'])
 print(f"\n{tot} seeded defects kept, {hit} caught by at least one quick check, {own} caught by the check of the very property they were written against.")
